@@ -1,7 +1,8 @@
 #!/bin/bash
 # soak: run the quick tier of the given checks under many VERIF_SEED values;
 # print only lines that need attention.  usage: soak.sh "<ids>" <first> <last>
-ids=${1:-"C08 C09 C10 C12"}
+if [ -n "$VP_RUN_REPO" ]; then export VERIF_REPO="$VP_RUN_REPO"; fi
+ids=${1:-"C08 C09 C10 C12 C13 C17 C20"}
 first=${2:-100}
 last=${3:-110}
 for seed in $(seq $first $last); do
